@@ -347,7 +347,11 @@ static carquet_status_t flush_row_group(carquet_writer_t* writer) {
 
         parquet_column_metadata_t* meta = &chunk->metadata;
         meta->type = col_info->type;
-        meta->codec = col_info->compression;
+        /* Pages are compressed as raw LZ4 blocks. The legacy LZ4 codec id (5)
+         * denotes Hadoop-framed LZ4, which other readers then expect; the id
+         * for what is actually in the file is LZ4_RAW. */
+        meta->codec = (col_info->compression == CARQUET_COMPRESSION_LZ4)
+            ? CARQUET_COMPRESSION_LZ4_RAW : col_info->compression;
         meta->num_values = col_info->num_values;
         meta->total_compressed_size = col_info->total_compressed_size;
         meta->total_uncompressed_size = col_info->total_uncompressed_size;
